@@ -68,51 +68,67 @@ Proof. exact no_race_refuted. Qed.
 Print Assumptions C04_no_race_refuted.
 
 (* ------------------------------------------------------------------ restore part *)
-(* C04, restore part -- a directory restore never hangs.  Statements only (to be imported / merged by
-   the C04 property file).  load_tree_msg = DirectoryOutputHandler.Load after the tree blob was read. *)
+(* C04, restore part -- a directory restore never hangs.  Statements only.
+   load_tree = DirectoryOutputHandler.Load; load_tree_msg = the same after the tree blob was read.
+   Since the repair of C04-F2 the download goroutines offer their error to errChan (capacity 1) with a
+   non-blocking send; Tree.load_tree_msg reads the outcome (Stuck / Error / Done) off the channel
+   transition system chan_step, so "never Stuck" is a theorem about that system, not a definition. *)
 
-(* The unguarded statement  forall tree cas faults, load_tree ... <> Stuck  is false of the faithful
-   model: a flat directory with one file whose blob is missing from the cache (errChan capacity
-   = len(tree.Children) = 0, one sender, the receiver only runs after waitGroup.Wait). *)
-Theorem C04_restore_terminates_refuted :
-  exists t st,
-    wf_tree t /\
-    match write_tree Hid enc_dir enc_tree t st with
-    | Some (st', ref) =>
-        load_tree Hid enc_dir enc_tree dec_tree max_depth ref (cas_del (Hid (s1 "x")) st') DAbsent = Stuck
-    | None => False
-    end.
-Proof. exact restore_terminates_refuted. Qed.
-Print Assumptions C04_restore_terminates_refuted.
+(* for EVERY digest function, serialisation, tree reference, store (any blobs missing, the tree blob
+   itself missing or undecodable, children missing from the message) and prior state of the destination,
+   the call returns *)
+Theorem C04_restore_terminates :
+  forall (H : str -> str) (ser_dir : dir_msg -> str) (ser_tree : tree_msg -> str)
+         (deser_tree : str -> option tree_msg) maxdepth ref st dest,
+    load_tree H ser_dir ser_tree deser_tree maxdepth ref st dest <> Stuck.
+Proof. exact restore_terminates. Qed.
+Print Assumptions C04_restore_terminates.
 
-(* guarded: for EVERY tree message and store (any digest function, any serialisation), the call
-   returns when every file blob the message refers to is present ... *)
-Theorem C04_restore_terminates_partial :
+Theorem C04_restore_terminates_msg :
   forall (H : str -> str) (ser_dir : dir_msg -> str) maxdepth m st,
-    blobs_present m st -> load_tree_msg H ser_dir maxdepth m st <> Stuck.
-Proof. exact restore_terminates_blobs_present. Qed.
-Print Assumptions C04_restore_terminates_partial.
+    load_tree_msg H ser_dir maxdepth m st <> Stuck.
+Proof. exact restore_terminates_msg. Qed.
+Print Assumptions C04_restore_terminates_msg.
 
-(* ... and the exact guard: it hangs iff the recursion itself succeeds and more downloads fail than
-   the tree has distinct sub-directories *)
-Theorem C04_restore_stuck_iff :
-  forall (H : str -> str) (ser_dir : dir_msg -> str) maxdepth m st,
-    load_tree_msg H ser_dir maxdepth m st = Stuck <->
-    exists k, load_failures H ser_dir maxdepth m st = Some k /\ length (tm_children m) < k.
-Proof. exact restore_stuck_iff. Qed.
-Print Assumptions C04_restore_stuck_iff.
+(* the reason: in the channel system no sender is ever left pending, for any number of failing downloads
+   and any capacity ... *)
+Theorem C04_restore_channel_never_blocks :
+  forall k cap, chan_released (chan_run k (mkChan k 0 cap)) = true.
+Proof. exact chan_never_blocks. Qed.
+Print Assumptions C04_restore_channel_never_blocks.
 
-(* the Stuck clause is the deadlock of the channel transition system: k senders, capacity
-   len(tree.Children), no receiver before all senders are through *)
-Theorem C04_restore_stuck_is_channel_deadlock :
+(* ... and a failed download is not lost: the call returns an error (the build then executes the target)
+   exactly when at least one download failed, given the recursion itself went through *)
+Theorem C04_restore_error_iff_failure :
   forall (H : str -> str) (ser_dir : dir_msg -> str) maxdepth m st k,
     load_failures H ser_dir maxdepth m st = Some k ->
-    (load_tree_msg H ser_dir maxdepth m st = Stuck <->
-     chan_released (chan_run k (mkChan k 0 (length (tm_children m)))) = false).
-Proof. exact restore_stuck_is_channel_deadlock. Qed.
-Print Assumptions C04_restore_stuck_is_channel_deadlock.
+    (load_tree_msg H ser_dir maxdepth m st = Error <-> 0 < k).
+Proof. exact restore_error_iff_failure. Qed.
+Print Assumptions C04_restore_error_iff_failure.
 
-(* one (empty) sub-directory next to the file is enough capacity: the same fault returns an error *)
+(* the former refutation witness (C04-F2): a flat directory with one file whose blob is missing from the
+   cache -- the restore returns an error *)
+Theorem C04_restore_flat_missing_blob_returns :
+  wf_tree flat_tree /\
+  match write_tree Hid enc_dir enc_tree flat_tree [] with
+  | Some (st', ref) =>
+      load_tree Hid enc_dir enc_tree dec_tree max_depth ref (cas_del (Hid (s1 "x")) st') DAbsent = Error
+  | None => False
+  end.
+Proof. exact restore_flat_missing_blob_returns. Qed.
+Print Assumptions C04_restore_flat_missing_blob_returns.
+
+(* two failing downloads against a channel that holds one error: an error as well *)
+Theorem C04_restore_two_missing_blobs_returns :
+  match write_tree Hid enc_dir enc_tree (Dir [(s1 "a", File (s1 "x") false); (s1 "b", File (s1 "y") true)]) [] with
+  | Some (st', ref) =>
+      load_tree Hid enc_dir enc_tree dec_tree max_depth ref (cas_del (Hid (s1 "y")) (cas_del (Hid (s1 "x")) st')) DAbsent = Error
+  | None => False
+  end.
+Proof. exact restore_two_missing_blobs_returns. Qed.
+Print Assumptions C04_restore_two_missing_blobs_returns.
+
+(* one (empty) sub-directory next to the file: the same fault returns an error (as before the repair) *)
 Theorem C04_restore_one_subdir_returns :
   match write_tree Hid enc_dir enc_tree (Dir [(s1 "a", File (s1 "x") false); (s1 "d", Dir [])]) [] with
   | Some (st', ref) =>
